@@ -45,9 +45,13 @@ func HarnessC14String() {
 		o = map[string]any{"id": x, "ID": y, "n": "z"}
 	}
 	data := map[string]any{"o": o, "x": x, "y": y}
-	if vChoice("bad-data", 2) == 1 {
+	switch vChoice("bad-data", 3) {
+	case 1:
 		// two entries that cannot be bound: which one is reported must not depend on map order
 		data = map[string]any{"loop": 1, "ch": make(chan int), "x": x}
+	case 2:
+		// a nested map holding several unsupported values of different types
+		data = map[string]any{"o": map[string]any{"f": func() {}, "g": func(int) string { return "" }, "c": make(chan int)}, "x": x, "y": y}
 	}
 	vMapOrder("insertion")
 	out1, err1 := c14String(src, data)
